@@ -254,8 +254,7 @@ theorem flux_identity_BM10ex (c : Consts) (m : CFFs) (pt : Pt)
   refine ⟨main, sigmaRho_one c m pt, rhoH_tau _ _ _ hQ hB, rhoE_tau _ _ _ hQ hB, ?_⟩
   intro hE1 hE2
   rw [main]
-  simp only [sigmaRho, DVCS._XGAMMA_DVCS_t_Ex, hE1, hE2]
-  ring
+  bridge_simp [sigmaRho, DVCS._XGAMMA_DVCS_t_Ex, hE1, hE2]
 
 /-- non-vacuity of the hypotheses of (4): α = 1, GeV2nb = c_lit/π, M² = 1, Q² = 4, xB = 1/2 (so ε² = 1/4), y = 1/2, t = −1 -/
 example : ∃ (c : Consts) (pt : Pt), (65.14079453579676 : ℝ) = π * c.alpha ^ 2 * c.GeV2nb ∧
